@@ -635,6 +635,12 @@ fn proc_exe(pid: u32) -> String {
     std::fs::read_link(format!("/proc/{}/exe", pid)).map(|p| p.to_string_lossy().to_string()).unwrap_or_default()
 }
 
+/// the image switch of execve is not atomic for an observer of /proc: `exe` changes before the argument area is set
+/// up, so wait until the command line is readable too before anybody is allowed to look at the process
+fn proc_cmdline_ready(pid: u32) -> bool {
+    std::fs::read(format!("/proc/{}/cmdline", pid)).map(|b| !b.is_empty()).unwrap_or(false)
+}
+
 fn kill_helpers() {
     for (_, mut h) in HELPERS.lock().unwrap().drain(..) {
         let _ = h.child.kill();
@@ -656,7 +662,7 @@ async fn spawn_exec_helper(name: &str, argv: &Value) -> Result<(), String> {
     for _ in 0..2000 {
         exe = proc_exe(pid);
         // right after fork the image is still the driver's; wait for the shell
-        if !exe.is_empty() && exe != proc_exe(std::process::id()) {
+        if !exe.is_empty() && exe != proc_exe(std::process::id()) && proc_cmdline_ready(pid) {
             break;
         }
         tokio::time::sleep(Duration::from_millis(1)).await;
@@ -676,7 +682,7 @@ async fn helper_exec(name: &str) -> Result<(), String> {
     };
     for _ in 0..5000 {
         let now = proc_exe(pid);
-        if !now.is_empty() && now != before {
+        if !now.is_empty() && now != before && proc_cmdline_ready(pid) {
             let mut hs = HELPERS.lock().unwrap();
             if let Some(h) = hs.iter_mut().find(|(n, _)| n == name) {
                 h.1.exe_after = Some(now);
@@ -1296,6 +1302,7 @@ async fn run_connection(
         }
     }
     let mut buf: Vec<u8> = Vec::new();
+    let mut abandoned = false;
     let mut responses: Vec<Value> = Vec::new();
     if pipelined {
         let mut all = Vec::new();
@@ -1344,6 +1351,26 @@ async fn run_connection(
                 None => stream.write_all(b).await,
             };
             let _ = stream.flush().await;
+            // EXTENSIONS (C14): "abort_after": n -- read n bytes of the response, then ABANDON the connection (dropped at once,
+            // nothing drained: the proxy sees a client that went away in the middle of a download)
+            if let Some(n) = reqs[i].get("abort_after").and_then(|x| x.as_u64()) {
+                let mut tmp = vec![0u8; 16384];
+                let mut eof = false;
+                while (buf.len() as u64) < n {
+                    match tokio::time::timeout(t, stream.read(&mut tmp)).await {
+                        Ok(Ok(0)) | Ok(Err(_)) | Err(_) => {
+                            eof = true;
+                            break;
+                        }
+                        Ok(Ok(k)) => buf.extend_from_slice(&tmp[..k]),
+                    }
+                }
+                let raw: Vec<u8> = buf.drain(..).collect();
+                responses.push(json!({"complete": false, "status": Value::Null, "raw_b64": b64e(&raw[..raw.len().min(4096)]),
+                                      "aborted": true, "read": raw.len(), "eof": eof}));
+                abandoned = true;
+                break;
+            }
             let mut resp = read_response(&mut stream, &mut buf, b.starts_with(b"HEAD "), t).await;
             if let Err(e) = werr {
                 resp["write_error"] = json!(e.to_string());
@@ -1362,6 +1389,12 @@ async fn run_connection(
     out["responses"] = Value::Array(responses);
     if let Err(e) = run_ops(c.get("ops_before_close"), &shared, &env, &snaps).await {
         out["error"] = json!(e);
+    }
+    if abandoned {
+        out["trailing_b64"] = json!("");
+        out["eof"] = json!(false);
+        drop(stream);
+        return out;
     }
     // close: half-close our side, collect whatever the proxy still sends, until EOF
     let _ = stream.shutdown().await;
